@@ -95,6 +95,19 @@ CLAIMED = {
             "comparing the real pipeline across permutations (bounded), not by a theorem about a model of the analyser.",
             "Trusted: Lean kernel (core-only), generators, harness+orchestrator. Defects found and repaired: forward-call signature, "
             "class layout by declaration order, vtable pointers.", "DESIGN.md §4 C10"),
+    "C11": ("Lean 4 theorems about a model of the evaluator's mark-sweep cycle collector and a register machine interruptible by a collection "
+            "before every step: the depth-first mark (fuel = heap size) reaches everything reachable from the roots, a collection leaves every "
+            "reachable object unchanged, and by a simulation argument the machine's output is the same under EVERY schedule Nat -> Bool + "
+            "correspondence: heap-shape programs run in the real evaluator under forced schedules (never / every boundary / single / sparse / "
+            "dense subsets) must print the model's trace; class and destructor programs must print the same under every schedule; the real "
+            "timer thread runs under ThreadSanitizer",
+            "Proof on the model for every operation list and every schedule (unbounded heap, arbitrary sharing and cycles); tied to "
+            "runtime_evaluator.cpp by differential runs through the BLOCH_VERIF schedule hook. PARTIAL: destructor timing under reference "
+            "counting and tracked-qubit objects are compared implementation-vs-implementation across schedules, not modelled; race freedom "
+            "and thread shutdown are observed with ThreadSanitizer (bounded), not proved.",
+            "Trusted: Lean kernel (core-only), heap program renderer, harness hook (collect at statement boundary k iff schedule(k)), "
+            "ThreadSanitizer. Defects found and repaired: temporaries not treated as roots, destructor runs depending on the schedule.",
+            "DESIGN.md §4 C11"),
 }
 PENDING_REASON = "check not built yet in this revision of /verif (planned: Lean model + correspondence, see DESIGN.md §4)"
 
